@@ -190,21 +190,21 @@ func (e *engine) planBoth(c *Case, store *Config, stream string) planOutcome {
 		return out
 	}
 	want := encCalls(real.Calls)
-	if mf[1] != want && dupContentTie(store) && c.Stream != "bigties" {
-		// unrepaired findGroupOnDevice: any of the identical groups may be taken; retry
-		for i := 0; i < 40 && mf[1] != want; i++ {
-			if c.Mode == "files" {
-				real = e.rr.planFiles(loaded(store), f)
-			} else {
-				real, _, _ = e.rr.planHTTP(store, c.PageSize, f, -2)
-			}
-			if real.Kind != "ok" {
-				break
-			}
-			want = encCalls(real.Calls)
-			e.res.Count("retry:dup-content-groups")
+	if dupContentTie(store) {
+		// several managed groups with the same content: the choice of findGroupOnDevice must not depend on
+		// map iteration order (repair f403263).  No re-run ever replaces the first verdict; a second run
+		// may only show that the planner is not deterministic, which is reported as a failure of its own.
+		var again realResult
+		if c.Mode == "files" {
+			again = e.rr.planFiles(loaded(store), f)
+		} else {
+			again, _, _ = e.rr.planHTTP(store, c.PageSize, f, -2)
 		}
-		out.real = real
+		e.res.Count("determinism-checked")
+		if again.Kind == "ok" && encCalls(again.Calls) != want && strings.Contains(owner["determinism"], e.prop) {
+			e.res.Fail(map[string]any{"pred": "plan_depends_on_map_order", "check": "determinism", "backend": "NSX"},
+				"two runs of the real planner on the same input give different scripts (several managed groups with equal content)", c)
+		}
 	}
 	if mf[1] != want && (c.Stream == "bigties" || moreThan12(store)) {
 		// more than 12 rules with ties: slices.SortFunc (pdqsort) is not stable, the model's sort is;
@@ -307,6 +307,8 @@ func pred(cl map[string]string, T *Config, status string) string {
 var owner = map[string]string{
 	"exec": "C08 C04", "conv": "C04", "svc": "C04", "grp": "C04", "idem": "C04", "frame": "C07", "scope": "C07",
 	"resume-exec": "C10", "resume-conv": "C10", "resume-idem": "C10", "resume-plan": "C10", "apply": "C08",
+	"idem-relisted": "C04", "wf": "C08 C04", "determinism": "C04", "accept": "C04 C07", "load": "C04 C07",
+	"conv-before-removal": "C04",
 }
 
 func (e *engine) fail(check, pr, what string, c *Case) {
